@@ -125,7 +125,7 @@ class ChoiceShim:
 class EnvSim(Engine):
     name = "envsim"
     props = ("C35",)
-    nruns = {"quick": 3000, "thorough": 400000}
+    nruns = {"quick": 5000, "thorough": 400000}
     budgets = {"quick": 45.0, "thorough": 540.0}
     rule = (
         "script = contingent problem (3-6 hidden Boolean ground fluents under unknown / oneof / or constraints, some with a default or "
